@@ -274,6 +274,100 @@ func build(d dgram, r *rand.Rand) built {
 	return res
 }
 
+// sciondst reads the destination host of a (possibly malformed) SCION packet straight from the address header:
+// byte 9 holds DT/DL/ST/SL, the destination host follows the two ISD-AS fields at offset 28.
+func sciondst(raw []byte) (netip.Addr, bool) {
+	if len(raw) < 28 {
+		return netip.Addr{}, false
+	}
+	dt, dl := raw[9]>>6&3, raw[9]>>4&3
+	n := (int(dl) + 1) * 4
+	if len(raw) < 28+n {
+		return netip.Addr{}, false
+	}
+	// whatever the address type says, the code may read 4 or 16 raw bytes as an IP address
+	if n == 4 || n == 16 {
+		a, _ := netip.AddrFromSlice(raw[28 : 28+n])
+		return a, dt == 1 && dl == 0
+	}
+	return netip.Addr{}, false
+}
+
+// mutate derives a structure-aware mutant from a valid datagram (other: a second datagram to splice with).
+func mutate(orig, other []byte, r *rand.Rand) ([]byte, string) {
+	raw := append([]byte(nil), orig...)
+	if len(raw) < 40 {
+		g := make([]byte, r.Intn(120))
+		r.Read(g)
+		return g, "random"
+	}
+	hl := int(raw[5]) * 4 // header length claimed by the common header
+	switch r.Intn(10) {
+	case 0:
+		return raw[:r.Intn(len(raw)+1)], "truncate"
+	case 1: // cut at / next to a layer boundary
+		cuts := []int{12, 24, 28, 32, 36, 44, 60, hl, hl + 4, hl + 8, hl + 12, len(raw) - 1, len(raw) - 4, len(raw) - 8, len(raw) - 16}
+		c := cuts[r.Intn(len(cuts))]
+		if c < 0 || c > len(raw) {
+			c = len(raw) / 2
+		}
+		return raw[:c], "cut-at-boundary"
+	case 2:
+		for k := 0; k < 1+r.Intn(3); k++ {
+			raw[r.Intn(12)] ^= byte(1 << r.Intn(8))
+		}
+		return raw, "common-header-bits"
+	case 3: // NextHdr, HdrLen, PayloadLen, PathType, address types/lengths
+		vals := []byte{0, 1, 6, 17, 200, 201, 202, 253, 255, byte(r.Intn(256))}
+		switch r.Intn(5) {
+		case 0:
+			raw[4] = vals[r.Intn(len(vals))]
+		case 1:
+			raw[5] = byte(int(raw[5]) + r.Intn(7) - 3)
+		case 2:
+			raw[6], raw[7] = byte(r.Intn(256)), byte(r.Intn(256))
+		case 3:
+			raw[8] = byte(r.Intn(5))
+		default:
+			raw[9] = byte(r.Intn(256))
+		}
+		return raw, "length-and-type-fields"
+	case 4: // addresses
+		for k := 0; k < 1+r.Intn(4); k++ {
+			raw[12+r.Intn(min(len(raw)-12, 40))] = byte(r.Intn(256))
+		}
+		return raw, "address-header"
+	case 5: // path meta header and hop fields
+		if hl > 40 && hl <= len(raw) {
+			for k := 0; k < 1+r.Intn(4); k++ {
+				raw[36+r.Intn(hl-36)] = byte(r.Intn(256))
+			}
+		}
+		return raw, "path"
+	case 6: // first bytes after the SCION header: extension / L4 type, code, ports
+		if hl+8 <= len(raw) {
+			types := []byte{0, 1, 2, 4, 5, 6, 99, 128, 129, 130, 131, 200, byte(r.Intn(256))}
+			raw[hl+r.Intn(8)] = types[r.Intn(len(types))]
+		}
+		return raw, "l4-header"
+	case 7: // head of one datagram, tail of another
+		c1, c2 := r.Intn(len(raw)), r.Intn(len(other)+1)
+		return append(raw[:c1], other[c2:]...), "splice"
+	case 8:
+		for k := 0; k < 1+r.Intn(6); k++ {
+			raw[r.Intn(len(raw))] = byte(r.Intn(256))
+		}
+		return raw, "random-bytes"
+	default:
+		g := make([]byte, r.Intn(200))
+		r.Read(g)
+		if len(g) > 0 && r.Intn(2) == 0 {
+			g[0] &= 0x0f // SCION version 0
+		}
+		return g, "random"
+	}
+}
+
 func hostID(a netip.Addr, v6 bool) string {
 	a = a.Unmap()
 	for _, m := range []map[string]netip.Addr{hosts4, hosts6} {
@@ -420,24 +514,25 @@ func main() {
 			w.Emit(ev)
 		}
 		// byte-level mutants of the sequence's datagrams on the same server: the abstract class of a mutant is
-		// unknown, only its next hop is observed
+		// unknown; the next hop, the destination host written in the mutant's own SCION address header and
+		// panics are observed
 		for i := 0; i < sc.Mut && len(sc.Seq) > 0; i++ {
 			d := sc.Seq[r.Intn(len(sc.Seq))]
 			b := build(d, r)
-			raw := append([]byte(nil), b.raw...)
-			switch r.Intn(4) {
-			case 0:
-				raw = raw[:r.Intn(len(raw)+1)]
-			case 1: // header bytes (common + address header)
-				for k := 0; k < 1+r.Intn(3); k++ {
-					raw[r.Intn(min(len(raw), 48))] ^= byte(1 << r.Intn(8))
-				}
-			default:
-				for k := 0; k < 1+r.Intn(4); k++ {
-					raw[r.Intn(len(raw))] = byte(r.Intn(256))
+			other := build(sc.Seq[r.Intn(len(sc.Seq))], r)
+			raw, op := mutate(b.raw, other.raw, r)
+			ev := vt.M{"ev": "mut", "op": op, "outer": d.Outer, "k": "drop", "host": "-", "port": 0, "panic": 0,
+				"sdst": "-", "dsvc": 0}
+			sd, svc := sciondst(raw)
+			if sd.IsValid() {
+				ev["sdst"] = hostID(sd, b.v6)
+				if sd.Unmap() == b.outer.Unmap() {
+					ev["sdst"] = d.Outer
 				}
 			}
-			ev := vt.M{"ev": "mut", "outer": d.Outer, "k": "drop", "host": "-", "port": 0, "panic": 0}
+			if svc {
+				ev["dsvc"] = 1
+			}
 			func() {
 				defer func() {
 					if e := recover(); e != nil {
